@@ -2532,6 +2532,25 @@ class MOFWBEMConnection(BaseRepositoryConnection):
         ns = kwargs.get('namespace', self.default_namespace)
         cc_path = CIMClassName(namespace=ns, classname=cc.classname)
 
+        # A class that is (directly or indirectly) its own superclass would
+        # make any resolution of its superclass chain recurse endlessly. That
+        # can happen when an existing class is defined again.
+        sc_name = cc.superclass
+        seen_names = set()
+        while sc_name and sc_name.lower() not in seen_names:
+            if sc_name.lower() == cc.classname.lower():
+                raise CIMError(
+                    CIM_ERR_INVALID_SUPERCLASS,
+                    _format("Cannot create class {0} because it would be its "
+                            "own superclass (via {1!A})",
+                            cc_path, cc.superclass),
+                    conn_id=self.conn_id)
+            seen_names.add(sc_name.lower())
+            try:
+                sc_name = self.classes[ns][sc_name].superclass
+            except KeyError:
+                break
+
         if cc.superclass:
             try:
                 # Since this may cause additional GetClass calls
